@@ -1149,7 +1149,7 @@ func run(sc scenario, res *caseResult) {
 	x.mu.Lock()
 	for i, r := range x.rpcs {
 		if r.started && r.finished == 0 && !r.spec.WFR {
-			x.v("rpc-outlives-its-connection", "rpc %d (%s, fail-fast, deadline %v) has not returned although the server closed every connection and no new connection can be established (quiescent at %v)", i, r.spec.Kind, r.spec.Deadline, x.now())
+			x.v("rpc-outlives-its-connection", "rpc %d (%s, fail-fast, timeout %v) has not returned although the server closed every connection and no new connection can be established (quiescent at %v)", i, r.spec.Kind, r.spec.Deadline, x.now())
 		}
 	}
 	var maxDL time.Duration
@@ -1242,7 +1242,7 @@ func (x *execState) judgeFinal(report bool) int {
 		case r.finished == 0:
 			stuck++
 			if report {
-				x.v("rpc-not-finished-after-close", "rpc %d (%s, wfr=%v, deadline %v) has not returned after ClientConn.Close()", i, r.spec.Kind, r.spec.WFR, r.spec.Deadline)
+				x.v("rpc-not-finished-after-close", "rpc %d (%s, wfr=%v, timeout %v) has not returned after ClientConn.Close()", i, r.spec.Kind, r.spec.WFR, r.spec.Deadline)
 			}
 		case r.finished > 1:
 			if report {
@@ -1304,9 +1304,9 @@ func TestVerifC11(t *testing.T) {
 		name string
 		n    int
 	}{
-		{"grammar", r.N(520, 10000) / light()},
-		{"bytes", r.N(180, 3600) / light()},
-		{"handshake", r.N(60, 1200) / light()},
+		{"grammar", r.N(520, 5200) / light()},
+		{"bytes", r.N(180, 1800) / light()},
+		{"handshake", r.N(60, 600) / light()},
 	}
 	var cases []caseID
 	for _, fm := range fams {
